@@ -140,7 +140,7 @@ func (w *rWorld) apply(op rOp) (ret string, applicable bool) {
 		}
 	}
 	applicable = true
-	sameDefs, leak := true, false
+	sameDefs, leak, nilForm := true, false, true
 	p, _ := catch(func() {
 		switch op.Op {
 		case "New":
@@ -193,6 +193,13 @@ func (w *rWorld) apply(op rOp) (ret string, applicable bool) {
 		case "Copy":
 			cp := o.res.(jsonapi.Copier).Copy()
 			sameDefs = reflect.DeepEqual(normDefs(o.res.Attrs(), o.res.Rels()), normDefs(cp.Attrs(), cp.Rels()))
+			// where the source answers with a value (a nil pointer of the attribute's type is one) the copy
+			// does not answer with no value at all, and the other way round
+			for f := range o.res.Attrs() {
+				if (o.res.Get(f) == nil) != (cp.Get(f) == nil) {
+					nilForm = false
+				}
+			}
 			w.objs = append(w.objs, rObj{impl: implOf(cp, o.impl), res: cp})
 		case "NewLike":
 			nw := o.res.(jsonapi.Copier).New()
@@ -220,6 +227,19 @@ func (w *rWorld) apply(op rOp) (ret string, applicable bool) {
 			src := o.res.GetType()
 			t := src.Copy()
 			sameDefs = reflect.DeepEqual(normDefs(src.Attrs, src.Rels), normDefs(t.Attrs, t.Rels)) && t.Name == src.Name
+			// the same type declared by hand under keys of its author's choosing (a Type literal is free
+			// to do so, and the library reads fields by their names): its copy has the same maps
+			hand := jsonapi.Type{Name: src.Name, Attrs: map[string]jsonapi.Attr{}, Rels: map[string]jsonapi.Rel{}}
+			for k, a := range src.Attrs {
+				hand.Attrs["key-"+k] = a
+			}
+			for k, r := range src.Rels {
+				hand.Rels["key-"+k] = r
+			}
+			hc := hand.Copy()
+			if !reflect.DeepEqual(normDefs(hand.Attrs, hand.Rels), normDefs(hc.Attrs, hc.Rels)) || hc.Name != hand.Name {
+				sameDefs = false
+			}
 			w.objs = append(w.objs, rObj{impl: "type", typ: &t})
 		case "TypeEdit":
 			// edit the maps of the Type value returned by GetType(), look at everybody else, undo
@@ -320,6 +340,8 @@ func (w *rWorld) apply(op rOp) (ret string, applicable bool) {
 		return "defs-differ", applicable // the copy / new instance does not have the source's definitions
 	case leak:
 		return "leak", applicable // an edit of this object's type maps showed in another object
+	case !nilForm:
+		return "copy-answers-nil-differently", applicable
 	}
 	return "ok", applicable
 }
